@@ -56,7 +56,7 @@ impl Prop for C03 {
         "each evaluation = one seeded catalogue (1..130 samples; adversarial contig names: 1..n space-separated fields, equal/unequal field lengths, runs >100, empty fields, tabs, shared subsets of fields with the previous name; descriptor tables with arbitrary group ids, in-group ids that repeat/go back/are 0/jump, lengths near and far from segment_size+k) registered in generated order, stored through Archive on the sim disk in 50-sample batches (benign short reads/writes, EINTR, tiny buffers in 40% of runs), closed, reopened, loaded batch by batch and compared with the table. distinct_nontrivial = distinct catalogue digests with >=2 names."
     }
     fn runs(&self, tier: Tier) -> u64 {
-        match tier { Tier::Quick => 60_000, Tier::Thorough => 6_000_000 }
+        match tier { Tier::Quick => 400_000, Tier::Thorough => 20_000_000 }
     }
     fn run_chunk(&self, ctx: &Ctx, indices: &[u64]) -> Vec<RunReport> {
         indices.iter().map(|&i| report(&catalog::generate(seed::run_seed(ctx.base_seed ^ 0xC03, i)), i, i < 2)).collect()
